@@ -1400,7 +1400,8 @@ def do_interleaving_case(req):
         for e in build(order):
             r = p.feed(e)
             if r is not None:
-                per.setdefault(e.tid, []).append((str(r), [(x.tid, x.eventid, x.func_qualifier, x.values) for x in r.ktraces]))
+                per.setdefault(e.tid, []).append((str(r), repr(getattr(r, 'cs_frames', None)), repr(getattr(r, 'cs_flags', None)),
+                                                  [(x.tid, x.eventid, x.func_qualifier, x.values) for x in r.ktraces]))
         return per, dict(p.pids_names)
     try:
         a = run(req['order_a'])
@@ -1423,7 +1424,11 @@ def do_interleaving_search(req):
     tried = 0
     budget = req.get('budget', 300)
     # directed cases first: both threads inside the same call; both threads announcing a new thread / an exec
-    directed = [[pool[4], pool[5]], [pool[0], pool[1]], [pool[2], pool[3]], [pool[0], pool[1], pool[2], pool[3]], [pool[4], pool[6], pool[7], pool[5]]]
+    sample = [['PERF_Event', 1, [9, 1, 0, 0], None], ['PERF_STK_UHdr', 0, [1, 5, 0, 0], None], ['PERF_STK_UData', 0, [0xa1, 0xa2, 0xa3, 0xa4], None],
+              ['PERF_STK_UData', 0, [0xa5, 0, 0, 0], None], ['PERF_THD_Data', 0, [77, 5, 0, 0], None], ['PERF_Event', 2, [0, 0, 0, 0], None]]
+    lookup = [['BSC_access', 1, [0, 0, 0, 0], None], ['VFS_LOOKUP', 3, None, 'AAAAAAAA/tmp/x'], ['BSC_access', 2, [0, 0, 0, 0], None]]
+    directed = [[pool[4], pool[5]], [pool[0], pool[1]], [pool[2], pool[3]], [pool[0], pool[1], pool[2], pool[3]], [pool[4], pool[6], pool[7], pool[5]],
+                sample, lookup]
     for pa in directed:
         for pb in directed:
             progs = {}
@@ -1514,7 +1519,12 @@ def do_lookup_case(req):
     for i, (q, data) in enumerate(recs):
         evs.append(_ev_raw(code, tid, q, data))
         if i in between and i < len(recs) - 1:
-            evs.append(unrelated())
+            if req.get('pair'):
+                # an unrelated START/END pair of the same thread (an interrupt taken between two chunks)
+                evs.append(_ev_raw(inv['INTERRUPT'], tid, 1, bytes(32)))
+                evs.append(_ev_raw(inv['INTERRUPT'], tid, 2, bytes(32)))
+            else:
+                evs.append(unrelated())
     if kind == 'lookup':
         evs.append(_ev_raw(inv[req.get('syscall', 'BSC_access')], tid, 2, bytes(32)))
     traces = []
@@ -1601,19 +1611,21 @@ def do_lookup_search(req):
     for kind, maxlen in (('lookup', 184), ('global', 184), ('name', 64)):
         for n in lens:
             if n <= maxlen:
-                plan.append((kind, n, []))
-                plan.append((kind, n, [0]))
-                plan.append((kind, n, [0, 1, 2, 3, 4]))
+                plan.append((kind, n, [], False))
+                plan.append((kind, n, [0], False))
+                plan.append((kind, n, [0, 1, 2, 3, 4], False))
+                if kind == 'lookup':
+                    plan.append((kind, n, [0], True))
     rnd.shuffle(plan)
     plan.sort(key=lambda x: 0 if not x[2] else 1)
-    for kind, n, between in plan[:budget]:
+    for kind, n, between, pair in plan[:budget]:
         text = ''.join(chr(97 + (i % 26)) for i in range(n))
         if kind == 'lookup' and n:
             text = '/' + text[1:]
         tried += 1
-        r = do_lookup_case({'what': kind, 'text': text, 'between': between})
+        r = do_lookup_case({'what': kind, 'text': text, 'between': between, 'pair': pair})
         if r['violates']:
-            r['request'] = {'kind': 'lookup_case', 'what': kind, 'text': text, 'between': between}
+            r['request'] = {'kind': 'lookup_case', 'what': kind, 'text': text, 'between': between, 'pair': pair}
             return {'tried': tried, 'bound': 'texts of the boundary lengths 0..184, with/without unrelated same-thread records between the chunks',
                     'found': r, 'violates': True, 'what': r['what']}
     return {'tried': tried, 'bound': 'texts of the boundary lengths 0..184, with/without unrelated same-thread records between the chunks', 'found': None,
